@@ -64,6 +64,8 @@ def main():
                 env["VERIF_REPO"] = scratch
             out, viol, oracle = run_check(prop, tier, env)
             status = "CAUGHT" if out.returncode == 1 and viol else ("MISSED" if out.returncode == 0 else f"HARNESS rc={out.returncode}")
+            if meta.get("expect") == "conforms":
+                status = {"MISSED": "SILENT-OK", "CAUGHT": "FALSE-ALARM"}.get(status, status)
             rep = ""
             if status == "CAUGHT":
                 r = subprocess.run([os.path.join(HERE, "bin", "check"), prop, "--replay", viol[0][1]], env=env, capture_output=True, text=True)
@@ -83,7 +85,7 @@ def main():
             meta.setdefault("checks", {})[tier] = {"cmd": f"bin/check {prop} --tier {tier} (VERIF_REPO=scratch copy with patch.diff applied)", "status": status, "oracle": oracle[:1], "replay": rep}
             json.dump(meta, open(os.path.join(d, "meta.json"), "w"), indent=1)
         summary.append((name, status))
-    missed = [n for n, s in summary if s != "CAUGHT"]
+    missed = [n for n, s in summary if s not in ("CAUGHT", "SILENT-OK")]
     print(f"{len(summary) - len(missed)}/{len(summary)} caught; not caught: {missed}")
     return 1 if missed else 0
 
